@@ -2,7 +2,28 @@
 
 _CACHE_STREAM = {"name": "cache", "quick": 30000, "thorough": 400000, "thorough_seeds": 4, "stateful": True, "seq_start": "new"}
 
+_FRAG_STREAM = {"name": "frag", "quick": 25000, "thorough": 400000, "thorough_seeds": 3, "stateful": True, "seq_start": ("frag-new", "mb-new")}
+
 PROPS = {
+    "C10": {
+        "streams": [_FRAG_STREAM],
+        "oracles": ["frag"],
+        "rule": "scenarios over real fragswarm and mbapp receivers fed synchronously by the harness: 1-5 messages from 3 sources, "
+                "sizes at every part-size and MTU boundary, inner MTUs from below the header size to 1200, fragments reordered, "
+                "duplicated, dropped, re-attributed to another source, mutated header fields and packets forged from scratch; "
+                "a case is one op line (tell / recv / state size), distinct by text",
+        "assumptions": ["the receive path is entered through the verif hook (handleTell / handleMessage) so that each datagram's effect "
+                        "is observed synchronously; the concurrent receive loops are exercised by the swarm-level streams",
+                        "mbapp origin time and timeout are wall-clock values taken from the implementation's packets"],
+    },
+    "C09": {
+        "streams": [_FRAG_STREAM, {"name": "mux", "quick": 6000, "thorough": 300000, "thorough_seeds": 3}],
+        "oracles": ["frag", "mux"],
+        "rule": "payload lengths 0, 1, part size +-1, 2 and 3 parts, MTU-1, MTU, MTU+1 against fragswarm/mbapp over inner MTUs "
+                "14..1200 and configured MTUs 10..100000; muxed swarms of all five kinds over inner MTUs 16..65536 with payloads "
+                "of exactly MTU() and MTU()+1",
+        "assumptions": ["per-layer theorems; transports over real sockets (UDP/QUIC/SSH) are assumed to honour their own MTU()"],
+    },
     "C18": {
         "streams": [_CACHE_STREAM],
         "oracles": ["cache"],
